@@ -16,3 +16,57 @@ package block
 //@   ensures [votes_checked] err == nil ==> ghost(vb_ok) && ghost(vb_block) == b && ghost(vb_vals) == blk_voters(b)
 //@   ensures [btp_checked] err == nil ==> ghost(pcm_ok)
 //@   ensures [voters] err == nil ==> voters == blk_voters(b)
+
+// ---------------------------------------------------------------------------
+// C07: a block is imported only as the direct, correctly timed successor of its parent
+// ---------------------------------------------------------------------------
+
+//@ property C07
+//@ smt all (declare-fun next_version (Iface BSeq) Int)
+//@ func (sm ServiceManager) GetNextBlockVersion(result) (v)
+//@   iface
+//@   trusted
+//@   pure
+//@   ensures v == next_version(sm, seq(result))
+
+// version 2 rule: above height 1 the timestamp is the one derived from the commit votes and is
+// strictly greater than the parent's
+//@ func (b *blockV2) VerifyTimestamp(prev, prevVoters) (err)
+//@   arith int
+//@   requires b != nil && prev != nil && b.votes != nil
+//@   pure
+//@   ensures [rule] err == nil <==> (b.height > 1 ==> b.timestamp == cvs_ts(b.votes) && blk_ts(prev) < b.timestamp)
+
+// verifyNewBlock accepts only: the version the parent's result calls for, height = parent + 1,
+// prevID = parent's id, a valid commit proof for the parent (C05) and the version's timestamp rule.
+//@ smt all (declare-ghost vnb_ok Bool)
+//@ smt all (declare-ghost vnb_block Iface)
+//@ smt all (declare-ghost vnb_prev Iface)
+//@ func (m *manager) verifyNewBlock(b, prev) (csi, err)
+//@   arith int
+//@   nosafety
+//@   modifies *
+//@   opt ghost:vnb_ok (err == nil)
+//@   opt ghost:vnb_block b
+//@   opt ghost:vnb_prev prev
+//@   opt protect m.sm, m.chainContext
+//@   opt no-callee-pre
+//@   requires m != nil && b != nil && prev != nil
+//@   ensures [version] err == nil ==> blk_version(b) == next_version(m.sm, blk_result(prev))
+//@   ensures [height] err == nil ==> blk_height(b) == blk_height(prev) + 1
+//@   ensures [parent] err == nil ==> blk_prev(b) == blk_id(prev)
+//@   ensures [timestamp] err == nil ==> ts_rule(b, prev)
+//@   ensures [proof] err == nil ==> ghost(vb_ok) && ghost(vb_block) == prev
+
+// import: the candidate is checked by verifyNewBlock against the block of the node its PrevID
+// names, and nothing is accepted when that check fails
+//@ func (m *manager) _import(block, flags, cb) (it, err)
+//@   arith int
+//@   nosafety
+//@   modifies *
+//@   noinline patch
+//@   requires m != nil && block != nil
+//@   requires forall k str :: {valmap(m.nmap)[k]} hasmap(m.nmap)[k] && valmap(m.nmap)[k] != nil ==> valmap(m.nmap)[k].block != nil
+//@   callpre verifyNewBlock: b == block && bn != nil && prev == bn.block
+//@   ensures [verified] err == nil ==> it != nil && ghost(vnb_ok) && ghost(vnb_block) == block
+//@   ensures [rejected] !ghost(vnb_ok) ==> err != nil
